@@ -16,6 +16,7 @@ import (
 	"github.com/buildbarn/bb-remote-execution/pkg/proto/buildqueuestate"
 	"github.com/buildbarn/bb-remote-execution/pkg/proto/remoteworker"
 	"github.com/buildbarn/bb-storage/pkg/digest"
+	"google.golang.org/protobuf/proto"
 	"google.golang.org/protobuf/types/known/emptypb"
 
 	"verif/internal/ev"
@@ -65,8 +66,9 @@ type stressRound struct {
 	vios []stressViolation
 
 	// token -> digest hash of the task it was submitted for.
-	tokMu  sync.Mutex
-	tokens map[string]string
+	tokMu     sync.Mutex
+	tokens    map[string]string
+	submitted map[string]*remoteexecution.ExecuteResponse // token -> response as handed in
 
 	// holders: task identity -> worker currently instructed to run it.
 	holdMu  sync.Mutex
@@ -138,11 +140,32 @@ func (s *stressRound) checkStream(id string, msgs []Msg, err error, cancelled bo
 				s.violate("final-result-from-nowhere", []string{"C02"}, "stream %s: final response carries token %q that no worker submitted", id, f.Token)
 			} else if h != f.Digest {
 				s.violate("final-result-of-other-action", []string{"C02"}, "stream %s for digest %s got the response a worker submitted for digest %s", id, f.Digest, h)
+			} else {
+				s.tokMu.Lock()
+				want := s.submitted[f.Token]
+				s.tokMu.Unlock()
+				if want != nil && f.RespPB != nil && !proto.Equal(want, f.RespPB) {
+					s.violate("final-response-altered", []string{"C02"}, "stream %s: worker submitted %v, the client received %v", id, want, f.RespPB)
+				}
 			}
 		} else {
 			known := (f.Code == "Aborted" && f.Text == "killed by operator") || (schedulerCodes[f.Code] && f.Text != "")
-			if !known {
+			if f.Code == "Canceled" && len(f.RespPB.GetStatus().GetDetails()) == 0 {
+				// Nobody in a stress round supplies CANCELED (workers'
+				// responses carry tokens, the operator kills with
+				// ABORTED plus details), so this is the scheduler's
+				// own cancellation. Its only cause is an operation
+				// without waiting clients for the whole time-out, and
+				// removal takes the operation out of the name map
+				// before the task completes: no stream can be handed
+				// it while attached.
+				s.violate("task-cancelled-while-client-still-attached", []string{"C03", "C02"}, "stream %s received the scheduler's own cancellation %q while it was attached to the operation (%d messages, client cancelled=%v)", id, f.Text, len(msgs), cancelled)
+			} else if !known {
 				s.violate("final-error-without-stated-cause", []string{"C02"}, "stream %s: final status %s %q is neither a worker response nor a scheduler error with a stated cause", id, f.Code, f.Text)
+			} else if f.Code == "Aborted" && f.RespPB != nil {
+				if want := (&remoteexecution.ExecuteResponse{Status: killStatus("Aborted", "killed by operator")}); !proto.Equal(want, f.RespPB) {
+					s.violate("final-response-altered", []string{"C02"}, "stream %s: the operator supplied status %v, the client received %v", id, want.Status, f.RespPB)
+				}
 			}
 		}
 		key := f.Code + "|" + f.Text + "|" + f.Token
@@ -164,6 +187,9 @@ func (s *stressRound) client(id int, rng *rand.Rand, wg *sync.WaitGroup) {
 		ctx, cancel := context.WithCancel(context.Background())
 		st := &Stream{ctx: RequestContext(ctx, path, "", a.Script, nil), seq: &Seq}
 		req := &remoteexecution.ExecuteRequest{InstanceName: a.Instance, ActionDigest: &remoteexecution.Digest{Hash: a.Hash, SizeBytes: a.Size}, ExecutionPolicy: &remoteexecution.ExecutionPolicy{Priority: pick(rng, s.world.Prios)}}
+		if req.ExecutionPolicy.Priority == 0 && s.streams.Load()%2 == 0 {
+			req.ExecutionPolicy = nil // optional in REv2
+		}
 		s.log.add(actor, "Execute", a.Tag+"@"+path)
 		s.streams.Add(1)
 		cancelled := atomic.Bool{}
@@ -247,18 +273,21 @@ func (s *stressRound) worker(id int, rng *rand.Rand, wg *sync.WaitGroup) {
 				ActionDigest: &remoteexecution.Digest{Hash: current.Hash, SizeBytes: current.Size}, ExecutionState: &remoteworker.CurrentState_Executing_Running{Running: &emptypb.Empty{}}}}}
 		default:
 			tok := fmt.Sprintf("tok-%s-%d", actor, Seq.Add(1))
-			s.tokMu.Lock()
-			s.tokens[tok] = current.Hash
-			s.tokMu.Unlock()
 			resp := &remoteexecution.ExecuteResponse{Message: tok}
 			switch rng.IntN(5) {
 			case 0:
-				resp.Result = &remoteexecution.ActionResult{ExitCode: 1}
+				resp.Result = WorkerResult(tok, 1)
 			case 1:
 				resp.Status = statusFor("DeadlineExceeded", "Failed to run command: timeout")
+				resp.Result = WorkerResult(tok, 0)
 			default:
-				resp.Result = &remoteexecution.ActionResult{}
+				resp.Result = WorkerResult(tok, 0)
 			}
+			DecorateWorkerResponse(resp, tok)
+			s.tokMu.Lock()
+			s.tokens[tok] = current.Hash
+			s.submitted[tok] = proto.Clone(resp).(*remoteexecution.ExecuteResponse)
+			s.tokMu.Unlock()
 			completing = current
 			req.CurrentState = &remoteworker.CurrentState{WorkerState: &remoteworker.CurrentState_Executing_{Executing: &remoteworker.CurrentState_Executing{
 				ActionDigest: &remoteexecution.Digest{Hash: current.Hash, SizeBytes: current.Size}, ExecutionState: &remoteworker.CurrentState_Executing_Completed{Completed: resp}}}}
@@ -385,7 +414,7 @@ func (s *stressRound) operator(rng *rand.Rand, wg *sync.WaitGroup, knownSCQ []sc
 				o := r.Operations[rng.IntN(len(r.Operations))]
 				s.env.BQ.KillOperations(ctx, &buildqueuestate.KillOperationsRequest{
 					Filter: &buildqueuestate.KillOperationsRequest_Filter{Type: &buildqueuestate.KillOperationsRequest_Filter_OperationName{OperationName: o.Name}},
-					Status: statusFor("Aborted", "killed by operator"),
+					Status: killStatus("Aborted", "killed by operator"),
 				})
 			}
 		case 2:
@@ -456,7 +485,7 @@ func RunStressRound(rng *rand.Rand, p Profile, procs int, dur int) *StressResult
 	// Every observation of the clock is a distinct instant, so that a
 	// queued timestamp identifies a task.
 	c.Env.Clock.AutoTick = time.Nanosecond
-	s := &stressRound{env: c.Env, world: w, log: &stressLog{}, tokens: map[string]string{}, holders: map[string]string{}, finals: map[string]string{}}
+	s := &stressRound{env: c.Env, world: w, log: &stressLog{}, tokens: map[string]string{}, submitted: map[string]*remoteexecution.ExecuteResponse{}, holders: map[string]string{}, finals: map[string]string{}}
 	var wg sync.WaitGroup
 	nClients := 4 + rng.IntN(8)
 	for i := 0; i < nClients; i++ {
